@@ -70,6 +70,16 @@ Lemma records_shapes :
   insert_checks_reloader Record_insert_dir = true.
 Proof. vm_compute. repeat split. Qed.
 
+(* the public no_record of a cache view suspends recording unconditionally: recording belongs to
+   the thread, whichever cache (with or without a reloader) the method is called on *)
+Definition public_no_record_wf (f : fn_def) : bool :=
+  match fn_body f with
+  | [EBlock [ECall (EPath ["records"; "no_record"]) [EPath ["f"]]]] => true
+  | _ => false
+  end.
+Lemma anycache_no_record_is_unconditional : public_no_record_wf AnyCache_no_record = true.
+Proof. vm_compute. reflexivity. Qed.
+
 (* Cache::read / read_dir: the entry is recorded, then the source is asked *)
 Definition read_records_first (f : fn_def) (recorder : string) : bool :=
   match fn_body f with
